@@ -252,3 +252,39 @@ Proof.
     destruct (eval_program cx0 eval_fuel [data] (asts ss) []) as [r|ln' msg'| | |]; cbn in S; try contradiction.
     exists ln', msg'. reflexivity.
 Qed.
+
+(* ---------- the same without a bound on the evaluator's fuel: EvalMono.v says an answer other than
+   out-of-fuel is the answer for every larger fuel, so whenever the model of EvaluateString answers
+   at all it answers what the specification says *)
+From TW Require Import EvalMono.
+
+Theorem source_renders_when_it_answers its ss ns eof fs gd (data : list (bytes * value)) :
+  source_ok its = true -> place (spell its) 0 its = flats ss ++ [eof] -> wf_ss ss -> DensL ss ns ->
+  env_from_map gd = EnvOk [data] ->
+  forallb (fun kv : bytes * value => clean (snd kv)) data = true -> nodes_ok ns ->
+  evaluate_string cx0 (spell its) gd <> RenderOutOfFuel ->
+  match run_nodes T fs [data] ns with
+  | TOk out SigNormal _ => evaluate_string cx0 (spell its) gd = RenderOk out
+  | TOk _ _ _ => True
+  | TFail => exists ln msg, evaluate_string cx0 (spell its) gd = RenderErr ln msg
+  | TNoFuel | TUnprintable => True
+  end.
+Proof.
+  intros Hs Hp W D He Hc Hok Hans.
+  destruct (source_renders_lines its ss ns eof fs gd data Hs Hp W D He Hc Hok) as (_ & PS & _).
+  destruct (template_refines_specification fs data ns Hc Hok) as (K & HK).
+  set (m := Nat.max K eval_fuel). specialize (HK m ltac:(subst m; lia)).
+  pose proof (lines_do_not_matter cx0 m [data] (asts ss) (map cnode ns) [] (proj1 (proj2 denL_trees) ss ns D)) as S.
+  unfold evaluate_string in *. rewrite PS in *. unfold render_program in *. rewrite He in *. cbn [p_stmts] in *.
+  assert (Hm : eval_program cx0 eval_fuel [data] (asts ss) [] <> OutOfFuel).
+  { intro X. rewrite X in Hans. apply Hans. reflexivity. }
+  pose proof (eval_program_fuel_mono cx0 eval_fuel m [data] (asts ss) [] _ ltac:(subst m; lia) eq_refl Hm) as Em.
+  rewrite Em in S.
+  destruct (run_nodes T fs [data] ns) as [out sg sc| | |]; try exact I.
+  - destruct sg; try exact I. destruct HK as (en' & E). rewrite E in S.
+    destruct (eval_program cx0 eval_fuel [data] (asts ss) []) as [r|ln msg| | |]; cbn in S; try contradiction.
+    subst r. reflexivity.
+  - destruct HK as (ln & msg & E). rewrite E in S.
+    destruct (eval_program cx0 eval_fuel [data] (asts ss) []) as [r|ln' msg'| | |]; cbn in S; try contradiction.
+    exists ln', msg'. reflexivity.
+Qed.
